@@ -56,6 +56,10 @@ def entries_of(facts, b, seen=None):
         return set()
     seen.add(root['did'])
     if is_entry(root):
+        ed = getattr(facts, '_frame_entry_did', None)
+        if ed is None:
+            ed = facts._frame_entry_did = {}
+        ed[strip_generics(root['path'])] = root['did']
         return {strip_generics(root['path'])}
     callers = call_graph(facts).get(root['did'], set())
     if not callers:
@@ -100,6 +104,17 @@ def field_writers(facts, adt):
             if k in ('Borrow', 'RawBorrow') and n.get('mut'):
                 for fl in fields_on(n['e']):
                     hits.append((fl, '&mut'))
+            if k == 'Leaf' and type_head(n.get('ty', '')) == adt:
+                # destructuring `let Self { current_state, .. } = self` on a `&mut` scrutinee: by-reference mutable bindings
+                for sub in n.get('subs', []):
+                    hit = []
+
+                    def g(m, hit=hit):
+                        if m.get('k') == 'Binding' and m.get('by_ref_mut'):
+                            hit.append(1)
+                    walk(sub.get('pat'), g)
+                    if hit:
+                        hits.append((sub.get('name'), '&mut pattern'))
             if k == 'Call' and isinstance(n.get('fn'), dict) and not n['fn'].get('local'):
                 # foreign code handed the whole state mutably (mem::swap / replace / take ...)
                 for a in n.get('args', []):
@@ -137,8 +152,18 @@ def check_frame(ctx, pfx, adt, table, why):
             ctx.ok(pfx + '.frame', A, f, expected='(field not in the write-set table)', found='not part of the specified state', why=why)
             continue
         got = w.get(f, set()) | w.get('*', set())
-        extra = sorted(x for x in got if x[0] not in allowed)
-        ctx.check(pfx + '.frame', A, f, not extra, expected='written only by %s' % sorted(allowed), found='also written by %s' % extra if extra else '%s' % sorted(got),
+        extra, explicit = [], []
+        for x in sorted(got):
+            if x[0] in allowed:
+                continue
+            eb = ctx.facts.by_did.get(getattr(ctx.facts, '_frame_entry_did', {}).get(x[0]))
+            implicit = eb is None or eb.get('container') in ('trait_impl', 'trait') or bool(call_graph(ctx.facts).get(eb['did']))
+            # a public inherent method / free fn that nothing in the crate calls is new explicit API (a setter the user has to
+            # invoke): it changes no existing behaviour.  Trait methods (dispatched from generic code) and anything the existing
+            # code reaches are implicit writers.
+            (extra if implicit else explicit).append(x)
+        ctx.check(pfx + '.frame', A, f, not extra, expected='written only by %s (or by new public API that no existing code calls)' % sorted(allowed),
+                  found='also written by %s' % extra if extra else '%s%s' % (sorted(x for x in got if x not in explicit), '; explicit new API: %s' % explicit if explicit else ''),
                   why=why)
 
 
